@@ -180,7 +180,7 @@ def strip_tests(text, log):
     return text
 
 
-BASIC_RULES = [r7_cfg_defmt, r1_async, r9_impl_trait_params]
+BASIC_RULES = [r7_cfg_defmt, r1_async, r9_impl_trait_params]   # + rules.r2_closure_params, appended by unit.py (import order)
 
 
 # --------------------------------------------------------------------------------------------
